@@ -811,8 +811,9 @@ def parse_output(out):
 
 def run_script(exe, path_blob, lines, seed, timeout=600):
     script = "blobfile %s\nseed %d\n" % (path_blob, seed) + "\n".join(lines) + "\n"
+    env = dict(os.environ, ASAN_OPTIONS="detect_leaks=0:abort_on_error=0", UBSAN_OPTIONS="halt_on_error=1:print_stacktrace=1")
     try:
-        p = subprocess.run([exe], input=script.encode(), stdout=subprocess.PIPE, stderr=subprocess.PIPE, timeout=timeout)
+        p = subprocess.run([exe], input=script.encode(), stdout=subprocess.PIPE, stderr=subprocess.PIPE, timeout=timeout, env=env)
         return p.returncode, p.stdout.decode("utf-8", "replace"), p.stderr.decode("utf-8", "replace")[-2000:], script
     except subprocess.TimeoutExpired as e:
         return 124, (e.stdout or b"").decode("utf-8", "replace"), "timeout", script
@@ -1385,6 +1386,20 @@ def mt_finding_group(gid, bigs, blob_add):
 # --------------------------------------------------------------------------------------------
 
 def run(ctx):
+    # a private scratch directory: core removes build/scratch/C07 whenever another ./check C07 starts
+    priv = ctx.scratch + ".%d" % os.getpid()
+    os.makedirs(priv, exist_ok=True)
+    shared = ctx.scratch
+    ctx.scratch = priv
+    try:
+        return run_(ctx)
+    finally:
+        ctx.scratch = shared
+        import shutil
+        shutil.rmtree(priv, ignore_errors=True)
+
+
+def run_(ctx):
     t_start = time.time()
     quick = ctx.quick
     r = ctx.prove()
@@ -1409,8 +1424,8 @@ def run(ctx):
             log("replay recorded with seed=%s tier=%s: re-run with VERIF_SEED=%s --tier %s for the same case" % (
                 ro.get("seed"), ro.get("tier"), ro.get("seed"), ro.get("tier")))
 
-    n_groups = 100 if quick else 900
-    n_mt = 8 if quick else 60
+    n_groups = 100 if quick else 2500
+    n_mt = 8 if quick else 120
     groups = []
     for gid in range(n_groups):
         grng = random.Random(ctx.seed * 1000003 + gid)
@@ -1485,7 +1500,7 @@ def run(ctx):
         # supporting run: the first groups again under ASan + UBSan (garbage indices, reads outside the workspace)
         try:
             exe_asan = core.build_harness("c07_det", ["c07_det.c"], variant="asan", extra_flags=["-w"])
-            sub = [g for g in groups if not g.mt][:150]
+            sub = [g for g in groups if not g.mt][:600]
             t1 = time.time()
             for g, res in run_groups(exe_asan, blob_path, sub, ctx.seed):
                 rc, out, err, script = res
